@@ -35,7 +35,8 @@ Inductive value :=
 
 Inductive perr := EStackOverflow | EDivZero | EBadRepetition | EBounds | EIndexValue | EMapKey | ESlice
                 | ERangeValue.   (* ErrRangeValue: a step range with step 0 (fc6a6b3) *)
-Inductive crash := CUnderflow | COperand | CDecode | CType.
+Inductive crash := CUnderflow | COperand | CDecode | CType
+                 | CHost.   (* the Go runtime panics or dies (makeslice: cap out of range, out of memory) *)
 Inductive pres := POk (v : value) | PErr (e : perr) | PCrash (c : crash).
 
 (* ---------- numbers ---------- *)
@@ -256,6 +257,24 @@ Definition slice_value (lhs start stop : value) : pres :=
 Fixpoint repeat_app {A} (n : nat) (l : list A) : list A :=
   match n with O => [] | S n' => l ++ repeat_app n' l end.
 
+(* OpArrayRepeat: len * count is more than any array may have (the evaluator's
+   guard: repetitions > math.MaxInt32 / len) *)
+Definition repeat_too_large (len : nat) (n : Z) : bool :=
+  negb (len =? 0)%nat && (2147483647 / Z.of_nat len <? n)%Z.
+(* vm.go at HEAD has no such guard: make([]value, 0, len*count) panics in
+   makeslice, or the process runs out of memory (false); with the proposed
+   C17-vm-repeat-count.diff it returns ErrBadRepetition (true) *)
+Definition repeat_guarded : bool := false.
+Definition arr_repeat (guarded : bool) (r : float) (l : list value) : pres :=
+  match go_int_exact r with
+  | None => PErr EBadRepetition
+  | Some n =>
+      if (n <? 0)%Z then PErr EBadRepetition
+      else if repeat_too_large (List.length l) n then (if guarded then PErr EBadRepetition else PCrash CHost)
+      else POk (VArr (match l with [] => [] | _ :: _ => repeat_app (Z.to_nat n) l end))
+           (* the empty array: HEAD loops count times over nothing (it hangs for 2^53); the value is [] *)
+  end.
+
 (* pairs (k1 v1 … kn vn), bottom-up order, from the popped values (top first) *)
 Fixpoint map_pairs (args : list value) (acc : list (list N * value)) : option (list (list N * value)) :=
   match args with
@@ -313,11 +332,7 @@ Definition pure_sem (o : opc) (arg : N) (consts locals globals : list value) (ar
   | Map => match map_pairs args [] with Some m => POk (VMap m) | None => PCrash CType end
   | ArrConcat => match args with [VArr r; VArr l] => POk (VArr (l ++ r)) | _ => PCrash CType end
   | ArrRepeat => match args with
-                 | [VNum r; VArr l] =>
-                     match go_int_exact r with
-                     | None => PErr EBadRepetition
-                     | Some n => if (n <? 0)%Z then PErr EBadRepetition else POk (VArr (repeat_app (Z.to_nat n) l))
-                     end
+                 | [VNum r; VArr l] => arr_repeat repeat_guarded r l
                  | _ => PCrash CType
                  end
   | Index => match args with [idx; lhs] => index_value lhs idx | _ => PCrash CType end
